@@ -476,9 +476,19 @@ func (s *Session) Data(r io.Reader) error {
 	if err != nil {
 		return wrapErr(err)
 	}
+	commitAttempted := false
 	defer func() {
 		if err := buf.Remove(); err != nil {
 			s.log.Error("failed to remove buffered body", err)
+		}
+
+		if !commitAttempted {
+			// Failed before Commit, the delivery has to be aborted here
+			// since cleanSession sets s.delivery to nil and Reset called
+			// by go-smtp will not do it.
+			if err := s.delivery.Abort(bodyCtx); err != nil {
+				s.log.Error("delivery abort failed", err)
+			}
 		}
 
 		// go-smtp will call Reset, but it will call Abort if delivery is non-nil.
@@ -497,6 +507,7 @@ func (s *Session) Data(r io.Reader) error {
 		return wrapErr(err)
 	}
 
+	commitAttempted = true
 	if err := s.delivery.Commit(bodyCtx); err != nil {
 		return wrapErr(err)
 	}
@@ -531,9 +542,19 @@ func (s *Session) LMTPData(r io.Reader, sc smtp.StatusCollector) error {
 	if err != nil {
 		return wrapErr(err)
 	}
+	commitAttempted := false
 	defer func() {
 		if err := buf.Remove(); err != nil {
 			s.log.Error("failed to remove buffered body", err)
+		}
+
+		if !commitAttempted {
+			// Failed before Commit, the delivery has to be aborted here
+			// since cleanSession sets s.delivery to nil and Reset called
+			// by go-smtp will not do it.
+			if err := s.delivery.Abort(bodyCtx); err != nil {
+				s.log.Error("delivery abort failed", err)
+			}
 		}
 
 		// go-smtp will call Reset, but it will call Abort if delivery is non-nil.
@@ -552,6 +573,7 @@ func (s *Session) LMTPData(r io.Reader, sc smtp.StatusCollector) error {
 
 	// We can't really tell whether it is failed completely or succeeded
 	// so always commit. Should be harmless, anyway.
+	commitAttempted = true
 	if err := s.delivery.Commit(bodyCtx); err != nil {
 		return wrapErr(err)
 	}
